@@ -56,7 +56,8 @@ V_gray2alt(e) ==
 
 \* wrongstatus(data, sb, msb, lsb) on the MB field of e.frame
 V_wrongstatus(e) ==
-  IF IsBool(e.res, Bit(e.frame, 32 + e.sb) = 0 /\ Field(e.frame, 32 + e.msb, 32 + e.lsb) # 0) THEN "ok" ELSE "wrongstatus_value"
+  \* "the field is non-zero" bit by bit: a field may be wider than TLC's 32-bit integers
+  IF IsBool(e.res, Bit(e.frame, 32 + e.sb) = 0 /\ (\E k \in (32 + e.msb)..(32 + e.lsb) : Bit(e.frame, k) = 1)) THEN "ok" ELSE "wrongstatus_value"
 
 \* is_icao_assigned: Annex 10 vol III unassigned blocks as coded (open intervals)
 Unassigned(a) ==
